@@ -14,6 +14,7 @@ use serde::*;
 use byteorder::*;
 
 #[derive(Debug, Clone, PartialEq, Eq, Serialize, Deserialize)]
+#[serde(from = "SerialisedTxIn")]
 pub struct TxIn {
     #[serde(serialize_with = "to_reverse_hex", deserialize_with = "from_reverse_hex")]
     pub(crate) prev_tx_id: Vec<u8>,
@@ -39,6 +40,41 @@ pub struct TxIn {
      */
     #[serde(skip_serializing_if = "Option::is_none")]
     pub(crate) satoshis: Option<u64>,
+}
+
+/**
+ * Shape of a TxIn as it is read back from JSON/CBOR. A coinbase script is written as a bare hex string, which is
+ * indistinguishable from a data push, so it is restored from the outpoint after deserialisation.
+ */
+#[derive(Deserialize)]
+struct SerialisedTxIn {
+    #[serde(deserialize_with = "from_reverse_hex")]
+    prev_tx_id: Vec<u8>,
+    vout: u32,
+    #[serde(rename = "script_sig")]
+    unlocking_script: Script,
+    sequence: u32,
+    #[serde(rename = "unlocking_script")]
+    locking_script: Option<Script>,
+    satoshis: Option<u64>,
+}
+
+impl From<SerialisedTxIn> for TxIn {
+    fn from(txin: SerialisedTxIn) -> TxIn {
+        let unlocking_script = match (TxIn::is_coinbase_outpoint_impl(&txin.prev_tx_id, &txin.vout), txin.unlocking_script.0.as_slice()) {
+            (true, [crate::ScriptBit::Push(bytes)]) => Script(vec![crate::ScriptBit::Coinbase(bytes.clone())]),
+            _ => txin.unlocking_script,
+        };
+
+        TxIn {
+            prev_tx_id: txin.prev_tx_id,
+            vout: txin.vout,
+            unlocking_script,
+            sequence: txin.sequence,
+            locking_script: txin.locking_script,
+            satoshis: txin.satoshis,
+        }
+    }
 }
 
 impl Default for TxIn {
